@@ -35,7 +35,24 @@ fn build_dir(job: &Value, scratch: &Path) -> std::io::Result<(PathBuf, PathBuf)>
     } else {
         root.join("proj")
     };
-    let src = Path::new(&repo_root()).join(job["project"].as_str().unwrap_or(""));
+    let pname = job["project"].as_str().unwrap_or("");
+    let src = if let Some(gseed) = crate::projgen::seed_of(pname) {
+        // a project printed by the generator, next to the (now stale) result files of its template
+        let g = scratch.join("gensrc");
+        let _ = std::fs::remove_dir_all(&g);
+        std::fs::create_dir_all(&g)?;
+        std::fs::write(g.join(format!("gen{}.ctehexml", gseed)), crate::projgen::generate(gseed))?;
+        if let Some(tdir) = Path::new(&repo_root()).join(crate::projgen::TEMPLATE).parent() {
+            for side in ["KyGananciasSolares.txt", "NewBDL_O.tbl"] {
+                if tdir.join(side).exists() {
+                    std::fs::copy(tdir.join(side), g.join(side))?;
+                }
+            }
+        }
+        g
+    } else {
+        Path::new(&repo_root()).join(pname)
+    };
     if has(job, "absent_dir") {
         return Ok((proj.clone(), proj));
     }
@@ -179,6 +196,21 @@ fn run_tool(cmd: &mut Command, timeout: Duration, device: &str, scratch: &Path) 
             if libc::openpty(&mut m, &mut sl, std::ptr::null_mut(), std::ptr::null_mut(), std::ptr::null_mut()) == 0 {
                 master_fd = m;
                 cmd.stdout(Stdio::from(std::fs::File::from_raw_fd(sl)));
+            } else {
+                cmd.stdout(Stdio::piped());
+            }
+        },
+        // the output cannot be written at all: a full disk (ENOSPC on every write) ...
+        "dev_full" => {
+            cmd.stdout(Stdio::from(std::fs::OpenOptions::new().write(true).open("/dev/full")?));
+        }
+        // ... or a consumer that has already gone away (EPIPE on the first write; SIGPIPE is
+        // ignored in Rust programs)
+        "closed_pipe" => unsafe {
+            let mut fds = [0 as libc::c_int; 2];
+            if libc::pipe2(fds.as_mut_ptr(), libc::O_CLOEXEC) == 0 {
+                libc::close(fds[0]);
+                cmd.stdout(Stdio::from(std::fs::File::from_raw_fd(fds[1])));
             } else {
                 cmd.stdout(Stdio::piped());
             }
@@ -454,6 +486,22 @@ pub fn run(ctx: &mut WorkerCtx, job: &Value) -> JobOutput {
     let stdout = String::from_utf8_lossy(&run.stdout).to_string();
     if run.timed_out {
         problems.push(json!({"class":"tool_hangs","tool":tool}));
+    }
+    if device == "dev_full" || device == "closed_pipe" {
+        // the document cannot be delivered, so the first half of the property cannot hold; what
+        // must still hold is that the tool does not report success (status 0) for a document
+        // that never arrived. Nothing else is judged under this fault.
+        result["case"] = json!("stdout_unwritable");
+        if conv.is_ok() && tool == "hulc2model" && run.status == Some(0) {
+            problems.push(json!({"class":"status_zero_but_stdout_write_failed","tool":tool,"device":device}));
+        }
+        if !problems.is_empty() {
+            result["class"] = json!("violation");
+            result["problems"] = json!(problems);
+            result["stderr_tail"] = json!(String::from_utf8_lossy(&run.stderr).lines().rev().take(3).collect::<Vec<_>>().join(" | "));
+        }
+        let _ = std::fs::remove_dir_all(&root);
+        return JobOutput { result, tainted: false };
     }
     match (&conv, no_project) {
         (Ok(model), _) => {
